@@ -52,7 +52,13 @@ pub enum Flavour {
     StdPtype { fmt: u8, umv: bool, sac: bool, ap: bool, pb: bool },
     /// Standard header with PLUSPTYPE, UFEP=001, custom picture format
     /// (width = multiple of 4, height = multiple of 4), square pixels.
-    StdPlus { umv_unlimited: bool },
+    /// `layers`: ELNUM/RLNUM, written iff the scalability mode is negotiated
+    /// (decoder option bit 2).
+    StdPlus {
+        umv_unlimited: bool,
+        #[serde(default)]
+        layers: Option<(u8, u8)>,
+    },
 }
 
 /// Macroblock kinds in MCBPC order: 0 Inter, 1 InterQ, 2 Inter4V, 3 Intra,
@@ -310,7 +316,7 @@ fn encode_header(w: &mut BitWriter, s: &PicSpec) {
             w.put(s.quant as u32 & 31, 5);
             w.put(0, 1); // CPM off
         }
-        Flavour::StdPlus { umv_unlimited } => {
+        Flavour::StdPlus { umv_unlimited, layers } => {
             w.put(1, 17);
             w.put(0, 5);
             w.put(s.tr as u32, 8);
@@ -337,6 +343,10 @@ fn encode_header(w: &mut BitWriter, s: &PicSpec) {
             w.put((s.height / 4) as u32 & 0x1FF, 9);
             if *umv_unlimited {
                 w.put(0b01, 2); // UUI = "01": unlimited
+            }
+            if let Some((el, rl)) = layers {
+                w.put(*el as u32 & 15, 4); // ELNUM
+                w.put(*rl as u32 & 15, 4); // RLNUM (UFEP = 001)
             }
             w.put(s.quant as u32 & 31, 5);
         }
